@@ -682,7 +682,7 @@ def _get_appended_rep_names(ls, prefix, name, ens_name=None, rep_sep='r'):
             raise Exception("Automatic recognition of replicum failed, please enter the key word 'names'.")
 
         if ens_name:
-            new_names.append(ens_name + '|' + entry[idx:])
+            new_names.append(ens_name + '|' + myentry[idx:])
         else:
             new_names.append(myentry[:idx] + '|' + myentry[idx:])
     return new_names
